@@ -4,6 +4,7 @@ import (
 	"errors"
 	"fmt"
 	"net"
+	"os"
 	"strings"
 	"sync"
 	"sync/atomic"
@@ -15,6 +16,7 @@ import (
 	"github.com/netflix/rend/verifshim/vcrand"
 	"github.com/netflix/rend/verifshim/vnet"
 	"github.com/netflix/rend/verifshim/vrand"
+	"github.com/netflix/rend/verifshim/vyield"
 
 	"verif/fakemc"
 	"verif/wire"
@@ -30,10 +32,14 @@ type PoolScenario struct {
 	Callers   []wire.Op `json:"callers"`
 	// MaxCuts > 0 enables "cut pooled connection j" events (C13); Refusals is how many dial
 	// attempts are refused after the first cut before the backend accepts again.
-	MaxCuts  int   `json:"maxCuts,omitempty"`
-	Refusals int   `json:"refusals,omitempty"`
-	Late     bool  `json:"late,omitempty"` // C13: one more caller is started after the last cut and must complete
-	Choices  []int `json:"choices"`
+	MaxCuts  int  `json:"maxCuts,omitempty"`
+	Refusals int  `json:"refusals,omitempty"`
+	Late     bool `json:"late,omitempty"` // C13: one more caller is started after the last cut and must complete
+	// Yields: goroutines of the pool park at the yield points injected before every statement
+	// touching the pooled connection / its buffers in the named functions; resuming one is an
+	// event (first in the default order, so choice 0 changes nothing).
+	Yields  []string `json:"yields,omitempty"`
+	Choices []int    `json:"choices"`
 }
 
 type poolDecision struct {
@@ -57,7 +63,14 @@ type PoolResult struct {
 	Dials    int
 	// ElapsedSec is how much virtual time the explorer let pass (whole seconds, rounded up).
 	ElapsedSec uint32
+	// StaleBatch: the batcher was about to write a batch to a pooled connection that was replaced
+	// (by the recovery goroutine) after the batch had been handed to the reader.
+	StaleBatch string
 }
+
+// LetStaleBatchRun makes executions continue past the point where a stale batch is about to be
+// written (set for replays: the consequence - out-of-sync panic or misdirected replies - follows).
+var LetStaleBatchRun = os.Getenv("VERIF_REPLAY") != ""
 
 func (r *PoolResult) Choices() []int {
 	out := make([]int, len(r.Trace))
@@ -129,7 +142,8 @@ func RunPool(sc PoolScenario, prefix []int) *PoolResult {
 		pconns = append(pconns, c)
 		return c, nil
 	}
-	vrand.Int31Hook = func(r *vrand.Rand) int32 { return int32(1000 * r.ID) }
+	var baseSeq int32
+	vrand.Int31Hook = func(r *vrand.Rand) int32 { return 100000 * atomic.AddInt32(&baseSeq, 1) }
 	vrand.IntnHook = func(r *vrand.Rand, n int) int {
 		switch {
 		case n <= 1:
@@ -143,7 +157,32 @@ func RunPool(sc PoolScenario, prefix []int) *PoolResult {
 		}
 		return 0 // reconnect delay / jitter: shortest
 	}
-	defer func() { vnet.DialHook, vrand.IntnHook, vrand.Int31Hook = nil, nil, nil }()
+	type parkedYield struct {
+		label string
+		ch    chan struct{}
+		gen   int // successful dials when the goroutine parked
+	}
+	var yields []*parkedYield
+	if len(sc.Yields) > 0 {
+		vyield.Hook = func(label string) {
+			ok := false
+			for _, fn := range sc.Yields {
+				if strings.HasPrefix(label, fn+":") {
+					ok = true
+				}
+			}
+			if !ok {
+				return
+			}
+			y := &parkedYield{label: label, ch: make(chan struct{})}
+			mu.Lock()
+			y.gen = len(pconns)
+			yields = append(yields, y)
+			mu.Unlock()
+			<-y.ch
+		}
+	}
+	defer func() { vnet.DialHook, vrand.IntnHook, vrand.Int31Hook, vyield.Hook = nil, nil, nil, nil }()
 
 	sock := fmt.Sprintf("verif-sock-%d", atomic.AddInt64(&poolSockSeq, 1))
 	opts := batched.Opts{BatchSize: uint32(sc.BatchSize), BatchDelayMicros: uint32(poolBatchDelay / time.Microsecond), ReadBufSize: 256, WriteBufSize: 256,
@@ -176,6 +215,9 @@ func RunPool(sc PoolScenario, prefix []int) *PoolResult {
 	lateOp := wire.Op{Kind: "set", Key: "late", Val: "late-value", Flags: 77}
 	cutsLeft := sc.MaxCuts
 	maxSteps := 40 + 12*sc.MaxCuts
+	if len(sc.Yields) > 0 {
+		maxSteps += 60
+	}
 	for res.Steps = 0; res.Steps < maxSteps; res.Steps++ {
 		synctest.Wait()
 		mu.Lock()
@@ -190,6 +232,10 @@ func RunPool(sc PoolScenario, prefix []int) *PoolResult {
 			i    int
 		}
 		var evs []ev
+		for yi, y := range yields {
+			opts = append(opts, "resume-"+y.label)
+			evs = append(evs, ev{"yield", yi})
+		}
 		for i := 0; i < n; i++ {
 			if !started[i] {
 				opts = append(opts, fmt.Sprintf("start%d", i))
@@ -207,7 +253,7 @@ func RunPool(sc PoolScenario, prefix []int) *PoolResult {
 			}
 		}
 		mu.Unlock()
-		if allDone && lateDone {
+		if allDone && lateDone && len(yields) == 0 {
 			break
 		}
 		opts = append(opts, "advance-time")
@@ -228,6 +274,19 @@ func RunPool(sc PoolScenario, prefix []int) *PoolResult {
 		}
 		e := evs[decide(opts)]
 		switch e.kind {
+		case "yield":
+			mu.Lock()
+			y := yields[e.i]
+			yields = append(yields[:e.i], yields[e.i+1:]...)
+			stale := strings.HasPrefix(y.label, "batcher:") && y.gen != len(pconns)
+			mu.Unlock()
+			if stale {
+				res.StaleBatch = fmt.Sprintf("the batcher handed a batch to the reader while pooled connection #%d was current and is about to write it (%s) after the recovery goroutine replaced the connection (now #%d)", y.gen-1, y.label, len(pconns)-1)
+				if !LetStaleBatchRun {
+					return res // the batcher stays parked; what would follow is an out-of-sync panic or misdirected replies
+				}
+			}
+			close(y.ch)
 		case "start":
 			start(e.i, callers[e.i])
 		case "late":
